@@ -514,7 +514,7 @@ def check(case):
         if len(got_t) > len(want_t):
             wanted = {w_['entity'] for w_ in want_t}
             kept = [g_ for g_ in got_t
-                    if not (re.search(r'(\w+)::\1\|\(\)\|this=\d+\|$', g_) and
+                    if not (re.search(r'(\w+)(?:<[^|]*>)?::\1\|\(\)\|this=\d+\|$', g_) and
                             g_.split('|(')[0] not in wanted)]
             if len(kept) >= len(want_t):
                 got_t = kept
